@@ -1653,6 +1653,18 @@ func (f *FuncCtx) afterStmt(s ast.Stmt, env *Env) {
 		if siteKeyed {
 			f.callOrd["aftersite:"+text]++
 			site := f.callOrd["aftersite:"+text]
+			if f.C.SiteMap != nil {
+				// reordered statements: this call is the recorded site whose assignment target it has (0: none)
+				mapped := false
+				for k := range f.C.SiteMap {
+					if strings.HasPrefix(k, text+"#") {
+						mapped = true
+					}
+				}
+				if mapped {
+					site = f.C.SiteMap[fmt.Sprintf("%s#%d", text, site)]
+				}
+			}
 			for k, cl := range f.C.After[fmt.Sprintf("%s#%d", text, site)] {
 				sc := &specCtx{old: f.entry, pos: s.End(), scope: f.fr.scope, pcs: f.PC}
 				g := f.evalClause(cl, env, sc)
